@@ -39,6 +39,8 @@ def gen_cases(seed, tier, n):
             # HTA_DISABLE_NS_ROUNDING=1, so the analysis sees fractional times; the ratio is scale invariant, the model runs on the
             # integer case
             fw.set_quarter_us(c)
+        if i % 16 == 3 and not c["params"].get("quarter_us"):
+            tracegen.scale_case_int32_edge(c)    # latest start just below 2**31, latest ends above
         if i % 16 == 11 and not c["params"].get("quarter_us"):
             tracegen.scale_case(c, 10 ** 8)     # a long trace: sums beyond 2**24 and 2**31 (the models are homogeneous in time)
         out.append(c)
